@@ -32,7 +32,10 @@ class ExceptionContext(StatusContext):
 
     @property
     def context_id(self) -> str:
-        return f"exception_{self.exception_type}"
+        # One occurrence per failed invocation (as for status and result contexts): without the
+        # invocation id two invocations failing with the same exception type collapse into one
+        # valid condition and the dependent task is launched only once.
+        return f"exception_{self.invocation_id}_{self.exception_type}"
 
     def _to_json(self, app: "Pynenc") -> dict[str, Any]:
         """
